@@ -257,6 +257,29 @@ func genOrderTriple(t *rapid.T) (D, D, D) {
 		y := DFin(nx.Neg, genCoef(t), clampExp(nx.Exp+ref.DecLen(nx.Coef)-ir(t, 1, 35, "ylen")))
 		return x, y, genNearValue(t, y)
 	}
+	if ir(t, 0, 2, "farApartLong") == 0 {
+		// far-apart magnitudes where the lower-exponent operand has a long (> 64-bit) coefficient that vanishes
+		// when it is aligned: the early "significand became zero" returns inside the gap arms
+		long := genDigits(t, ir(t, 20, 35, "len"))
+		e := genExp(t)
+		short := DFin(genSign(t), genDigits(t, ir(t, 1, 35, "slen")), clampExp(e+ir(t, 20, 90, "gap")))
+		lo := DFin(genSign(t), capCoef(long), e)
+		if ir(t, 0, 1, "order") == 0 {
+			return short, lo, genNearValue(t, short)
+		}
+		return lo, short, genNearValue(t, lo)
+	}
+	if ir(t, 0, 1, "zeroGap") == 0 {
+		// a zero whose exponent lies within the alignment range of a non-zero operand: every gap arm has an
+		// early return for a zero significand
+		x := genFiniteNZ(t)
+		nx := x.Num()
+		z := DFin(genSign(t), new(big.Int), clampExp(nx.Exp+ir(t, -40, 40, "gap")))
+		if ir(t, 0, 1, "order") == 0 {
+			return x, z, genCohortMember(t, x)
+		}
+		return z, x, genNearValue(t, x)
+	}
 	x := genFinite(t)
 	return x, x, genCohortMember(t, x)
 }
